@@ -2,6 +2,7 @@ package main
 
 import (
 	"fmt"
+	"math"
 
 	"verif/drv"
 	"verif/e1lib"
@@ -46,9 +47,9 @@ func c05Check(c stage.Cfg) func(o *obs.Obs) string {
 				return fmt.Sprintf("%s/visits|visited %v, want one visit per element in order %v", tag, calls, r.calls)
 			}
 		case "take":
-			limit := c.N + c.Cap
-			if limit > c.K {
-				limit = c.K
+			limit := c.K
+			if c.N < c.K-c.Cap {
+				limit = c.N + c.Cap
 			}
 			if o.Sim && o.N("sent") > limit {
 				return fmt.Sprintf("%s/consumed|Take(%d) on an input of capacity %d let the producer complete %d sends: more than n elements consumed", tag, c.N, c.Cap, o.N("sent"))
@@ -97,7 +98,21 @@ func c05Scenarios(tier string) []e1lib.Scenario {
 		if d {
 			name += fmt.Sprintf(" deviations<=%d", b)
 		}
-		out = append(out, e1lib.Scenario{Name: name, Root: func() { stage.Scenario(c) }, Check: c05Check(c), Bound: b, Deviations: d, Sample: c, RealDone: done,
+		ref := stageRef(c)
+		onHorizon := func(o *obs.Obs) string {
+			// the scenarios are finite by construction; an execution that is still going at the step horizon has
+			// delivered something the list function does not contain (e.g. an endless run of zero values)
+			for _, n := range ref.names {
+				if got := o.Strs(n); !obs.IsPrefix(got, ref.outs[n]) {
+					if len(got) > 12 {
+						got = append(got[:12:12], "...")
+					}
+					return fmt.Sprintf("C05/%s/endless|output %q delivered %v and is still delivering at the step horizon; the list function gives %v", c.Stage, n, got, ref.outs[n])
+				}
+			}
+			return ""
+		}
+		out = append(out, e1lib.Scenario{Name: name, Root: func() { stage.Scenario(c) }, Check: c05Check(c), Bound: b, Deviations: d, Sample: c, RealDone: done, OnHorizon: onHorizon,
 			// the result of these scenarios is deterministic by design (one outcome); a case is non-trivial
 			// when there is something to reorder: at least two elements and more than one schedule
 			Nontrivial: func(outcomes, execs, states int) bool { return c.K >= 2 && execs > 1 }})
@@ -126,10 +141,18 @@ func c05Scenarios(tier string) []e1lib.Scenario {
 					for m := 0; m < 1<<k; m++ {
 						c.Mask = m << 1
 						add(c)
+						if k <= 2 {
+							c.Mask |= 1 // the predicate also holds for 0, the zero value of the element type
+							add(c)
+						}
 					}
 				case "take":
 					for n := 0; n <= k+1; n++ {
 						c.N = n
+						add(c)
+					}
+					if k <= 2 {
+						c.N = math.MaxInt // "no limit"
 						add(c)
 					}
 				default:
